@@ -5,6 +5,7 @@ import NibabelModel.Lemmas.C10_Glue5
 import NibabelModel.Lemmas.C10_FromHdr
 import NibabelModel.Lemmas.C10_Pub
 import NibabelModel.Lemmas.C10_World
+import NibabelModel.Lemmas.C10_Mem
 /-! Props/C10 — property theorems for C10 (binary headers are faithful to their bytes, byte order and
     repairs).  Part A: byte codec and record codec over EVERY tiling layout; part B: WrapStruct
     operations; part C: endianness guessing; part D: check batteries; part E: obligations over the
@@ -292,6 +293,140 @@ example : (⟨[[[1], [2]]], [⟨.le, 0⟩, ⟨.be, 0⟩]⟩ : World).wf ∧
   constructor
   · intro o ho; simp at ho; rcases ho with rfl | rfl <;> decide
   · decide
+
+/-! ### B2. who owns the bytes: headers, caller-side containers and histories of operations on both
+
+    `Mem` (Model/C10_Mem) has memory cells, caller-side bytes-like containers and header objects that refer to
+    cells; in that state space a header CAN view the caller's memory and two headers CAN share a cell.  The
+    theorems are about `Mem.step` = the constructor that stores `wstr.copy()`, for every class instance `K`
+    (layout, constructor normalisation, endianness guess, repair function) and every history. -/
+
+/-- Whatever the history (containers of any kind created, viewed and overwritten; headers built from them with
+    a given or guessed byte order, read from file objects, copied, byte-swapped, edited, repaired), no header ever
+    views a caller's memory and no two headers view the same memory. -/
+theorem mem_separation_invariant (K : Klass) (ops : List MOp) (m : Mem) (h : Mem.run K Mem.empty ops = some m) :
+    m.Sep := Mem.run_sep K Mem.empty m ops Mem.sep_empty h
+
+/-- Independence for ANY history: a header through which nobody writes (`hdr[...] = …`, `check_fix`) keeps its
+    byte order and its bytes — whatever is done to the buffer it was built from, to other headers built from the
+    same block, to its copies and to the headers it was copied from. -/
+theorem mem_hdr_independent (K : Klass) (m m' : Mem) (ops : List MOp) (hs : m.Sep)
+    (hrun : Mem.run K m ops = some m') (h : Nat) (hh : h < m.hdrs.length)
+    (ht : ∀ op ∈ ops, op.touches h = false) :
+    m'.hdrE h = m.hdrE h ∧ m'.hdrBytes h = m.hdrBytes h := by
+  have r := Mem.run_hdr_frame K m m' ops hs hrun h hh ht
+  exact ⟨by unfold Mem.hdrE; rw [r.2.1], r.2.2⟩
+
+/-- Header operations never write into the caller's memory: over any history in which the caller itself does not
+    write, every container keeps its bytes (construction from it, field assignment, `check_fix`, copies …). -/
+theorem mem_bufs_untouched (K : Klass) (m m' : Mem) (ops : List MOp) (hs : m.Sep)
+    (hrun : Mem.run K m ops = some m') (b : Nat) (hb : b < m.bufs.length)
+    (hp : ∀ op ∈ ops, op.isPoke = false) : m'.bufBytes b = m.bufBytes b :=
+  (Mem.run_buf_frame K m m' ops hs hrun b hb hp).2.2
+
+/-- A header built from a block stays faithful to the bytes it was built from: after `Klass(container, e)`
+    (`e` given or guessed) and ANY later history that does not write through the new header, its byte order is the
+    resolved one and its bytes are the normalisation of what the container held AT CONSTRUCTION. -/
+theorem mem_ctor_faithful (K : Klass) (m m1 m2 : Mem) (b : Nat) (e? : Option Endian) (ops : List MOp)
+    (hs : m.Sep) (hc : m.step K (.ctor b e?) = some m1) (hrun : Mem.run K m1 ops = some m2)
+    (ht : ∀ op ∈ ops, op.touches m.hdrs.length = false) :
+    ∃ e s, (match e? with | some e => some e | none => K.guess (m.bufBytes b)) = some e ∧
+      K.norm e (m.bufBytes b) = some s ∧ m2.hdrE m.hdrs.length = e ∧ m2.hdrBytes m.hdrs.length = s := by
+  have hs1 := Mem.step_sep K m m1 _ hs hc
+  simp only [Mem.step] at hc
+  split at hc
+  · obtain ⟨e, s, he, hn, hl, hE, hB⟩ := Mem.newHdr_spec K m m1 e? _ hc
+    have r := mem_hdr_independent K m1 m2 ops hs1 hrun m.hdrs.length (by omega) ht
+    exact ⟨e, s, he, hn, by rw [r.1, hE], by rw [r.2, hB]⟩
+  · cases hc
+
+/-- the same for the plain classes (every class but MGH): the bytes are exactly the container's bytes -/
+theorem mem_ctor_faithful_plain (K : Klass) (hK : K.norm = plainNorm K.L) (m m1 m2 : Mem) (b : Nat) (e : Endian)
+    (ops : List MOp) (hs : m.Sep) (hc : m.step K (.ctor b (some e)) = some m1) (hrun : Mem.run K m1 ops = some m2)
+    (ht : ∀ op ∈ ops, op.touches m.hdrs.length = false) :
+    m2.hdrE m.hdrs.length = e ∧ m2.hdrBytes m.hdrs.length = m.bufBytes b := by
+  obtain ⟨e', s, he, hn, hE, hB⟩ := mem_ctor_faithful K m m1 m2 b (some e) ops hs hc hrun ht
+  cases he
+  rw [hK] at hn
+  unfold plainNorm at hn
+  split at hn
+  · cases hn; exact ⟨hE, hB⟩
+  · cases hn
+
+/-- `from_fileobj`: the header holds the bytes the file object had at the read position at that moment -/
+theorem mem_fromFile_faithful (K : Klass) (m m1 m2 : Mem) (b off : Nat) (e? : Option Endian) (ops : List MOp)
+    (hs : m.Sep) (hc : m.step K (.fromFile b off e?) = some m1) (hrun : Mem.run K m1 ops = some m2)
+    (ht : ∀ op ∈ ops, op.touches m.hdrs.length = false) :
+    ∃ e s, K.norm e (((m.bufBytes b).drop off).take K.L.size) = some s ∧
+      m2.hdrE m.hdrs.length = e ∧ m2.hdrBytes m.hdrs.length = s := by
+  have hs1 := Mem.step_sep K m m1 _ hs hc
+  simp only [Mem.step] at hc
+  split at hc
+  · obtain ⟨e, s, _, hn, hl, hE, hB⟩ := Mem.newHdr_spec K m m1 e? _ hc
+    have r := mem_hdr_independent K m1 m2 ops hs1 hrun m.hdrs.length (by omega) ht
+    exact ⟨e, s, hn, by rw [r.1, hE], by rw [r.2, hB]⟩
+  · cases hc
+
+/-- `copy()`, same-class `from_header` and `as_byteswapped(code)` (also when `code` is the current order, where
+    the code returns `self.copy()`): the result is a new header holding (the byte-swap of) the source's bytes at
+    that moment, and it keeps them over any later history that does not write through it. -/
+theorem mem_copy_swap_independent (K : Klass) (m m1 m2 : Mem) (h : Nat) (t : Option Endian) (ops : List MOp)
+    (hs : m.Sep) (hc : m.step K (.swapTo h t) = some m1) (hrun : Mem.run K m1 ops = some m2)
+    (ht : ∀ op ∈ ops, op.touches m.hdrs.length = false) :
+    m2.hdrE m.hdrs.length = t.getD (m.hdrE h).swap ∧
+    K.norm (t.getD (m.hdrE h).swap)
+      (if t.getD (m.hdrE h).swap = m.hdrE h then m.hdrBytes h else swapFields K.L (m.hdrBytes h))
+      = some (m2.hdrBytes m.hdrs.length) := by
+  have hs1 := Mem.step_sep K m m1 _ hs hc
+  have r := fun hl => mem_hdr_independent K m1 m2 ops hs1 hrun m.hdrs.length hl ht
+  simp only [Mem.step] at hc
+  split at hc
+  · split at hc
+    · rename_i heq
+      obtain ⟨e, s, he, hn, hl, hE, hB⟩ := Mem.newHdr_spec K m m1 _ _ hc
+      cases he
+      have r := r (by omega)
+      rw [if_pos heq, heq, r.1, r.2, hE, hB]
+      exact ⟨rfl, hn⟩
+    · rename_i hne
+      obtain ⟨e, s, he, hn, hl, hE, hB⟩ := Mem.newHdr_spec K m m1 _ _ hc
+      cases he
+      have r := r (by omega)
+      rw [if_neg hne, r.1, r.2, hE, hB]
+      exact ⟨rfl, hn⟩
+  · cases hc
+
+/-- bridge to the record level: for a tiling layout and a right-sized cell, `binaryblock` of the header the
+    object denotes is the cell -/
+theorem mem_binaryblock (L : Layout) (hwf : L.wf = true) (m : Mem) (h : Nat)
+    (hl : (m.hdrBytes h).length = L.size) : binaryblock L (m.hdr L h) = m.hdrBytes h :=
+  binaryblock_ofBytes L hwf _ _ hl
+
+def toyL : Layout := ⟨"toy", 2, [⟨"a", 0, 1, 1, .uint⟩, ⟨"b", 1, 1, 1, .uint⟩]⟩
+def toyK : Klass := ⟨toyL, plainNorm toyL, fun _ => some .le, fun _ bs => bs⟩
+
+/-- The state space does allow sharing: with the constructor that keeps a writable wrapped array
+    (`Mem.stepAlias`) the caller re-using its buffer changes the header, editing one of two headers built from
+    one block edits the other and writes into the caller's buffer — none of which happens with `Mem.step`. -/
+theorem mem_alias_counterexample :
+    let pre := [MOp.alloc true [1, 2], .ctor 0 (some .le)]
+    (Mem.runAlias toyK Mem.empty (pre ++ [.poke 0 0 [7, 8]])).map (·.hdrBytes 0) = some [7, 8] ∧
+    (Mem.run toyK Mem.empty (pre ++ [.poke 0 0 [7, 8]])).map (·.hdrBytes 0) = some [1, 2] ∧
+    (Mem.runAlias toyK Mem.empty (pre ++ [.ctor 0 (some .le), .setf 1 "a" [9]])).map
+      (fun m => (m.hdrBytes 0, m.bufBytes 0)) = some ([9, 2], [9, 2]) ∧
+    (Mem.run toyK Mem.empty (pre ++ [.ctor 0 (some .le), .setf 1 "a" [9]])).map
+      (fun m => (m.hdrBytes 0, m.hdrBytes 1, m.bufBytes 0)) = some ([1, 2], [9, 2], [1, 2]) := by
+  decide
+
+/-- non-vacuity: a history with a writable container, a read-only view of it, two headers from the block (one
+    guessed), a file-object read, an edit, a repair, a copy, a same-order `as_byteswapped` and a re-used buffer runs -/
+example : (Mem.run toyK Mem.empty
+    [.alloc true [1, 2], .view 0 true, .ctor 0 (some .be), .ctor 1 none, .fromFile 0 0 (some .le), .setf 0 "b" [5],
+     .fix 1, .copy 0, .swapTo 0 (some .be), .swapTo 1 none, .snap 0, .poke 0 1 [9]]).map
+    (fun m => (m.hdrs.length, m.bufBytes 1, m.hdrBytes 0, m.hdrBytes 1)) = some (6, [1, 9], [1, 5], [1, 2]) := by
+  decide
+
+example : toyK.norm = plainNorm toyK.L := rfl
 
 /-! ### C. endianness guessing -/
 
